@@ -579,6 +579,13 @@ pub fn serialize_spans(w: &WPacket, want_spans: bool) -> Option<(Vec<u8>, Vec<Sp
     Some((out, spans))
 }
 
+/// one property section on its own (length prefix and entries), as it stands in a frame
+pub fn serialize_props(p: &Props) -> Vec<u8> {
+    let mut b = Ser::new(false);
+    b.props("section", p);
+    b.out
+}
+
 pub fn serialize(w: &WPacket) -> Option<Vec<u8>> {
     serialize_spans(w, false).map(|x| x.0)
 }
